@@ -12,6 +12,7 @@ open YaegiVerif.Expected.C06 (facts)
 @[simp] theorem facts_prependBuiltin : facts.prependBuiltin = true := rfl
 @[simp] theorem facts_argsByRefCall : facts.argsByRefCall = false := rfl
 @[simp] theorem facts_argsByRefBin : facts.argsByRefBin = false := rfl
+@[simp] theorem facts_spreadBin : facts.spreadBin = true := rfl
 @[simp] theorem facts_deferredProtected : facts.deferredProtected = true := rfl
 @[simp] theorem facts_recoverReadsAnc : facts.recoverReadsAnc = true := rfl
 @[simp] theorem facts_recoverClears : facts.recoverClears = true := rfl
@@ -170,6 +171,13 @@ theorem body_sim (cy : CallFn) (cs : Spec.CallFn) (hs : Sim cy cs) (hn : Spec.No
     simp only [execBodyY, Spec.execBody, facts_argsByRefBin, storeArg_val, evalArg_eq, pushEntry, Spec.push, facts_prependCallBin, if_true]
     exact ih a anc ⟨⟨.bin s, .val (Spec.evalArg x a ⟨sd, sres⟩)⟩ :: sd, sr, sres, sl⟩ w hd hrec
       (allOK_cons _ _ (by simp [Entry.ok]) hok)
+  | deferBinSpread s ns k ih =>
+    intro a anc self w hd hrec hok
+    simp only [Dom] at hd
+    obtain ⟨sd, sr, sres, sl⟩ := self
+    simp only [execBodyY, Spec.execBody, pushEntry, Spec.push, facts_prependCallBin, facts_spreadBin, if_true]
+    exact ih a anc ⟨⟨.bins s ns true, .val 0⟩ :: sd, sr, sres, sl⟩ w hd hrec
+      (allOK_cons _ _ (by simp [Entry.ok]) hok)
   | deferDel t k ih =>
     intro a anc self w hd hrec hok
     simp only [Dom] at hd
@@ -244,6 +252,7 @@ theorem entries_sim (cy : CallFn) (cs : Spec.CallFn) (hs : Sim cy cs) (hc : Spec
     cases callee with
     | bin s => simp only [runEntriesY, Spec.runDefers]; exact ih self _ hes hl
     | del t => simp only [runEntriesY, Spec.runDefers]; exact ih self _ hes hl
+    | bins s ns sp => simp only [runEntriesY, Spec.runDefers]; exact ih self _ hes hl
     | pan v =>
       simp only [runEntriesY, Spec.runDefers, facts_deferredProtected, if_true, raised_facts]
       exact ih { self with recovered := some v } w hes hl
@@ -340,6 +349,7 @@ theorem execBodyY_anc (F : UnwindFacts) (cf : CallFn) :
   | deferVar f x k _ ih => intros; simp only [execBodyY]; apply ih
   | deferBin s x k ih => intros; simp only [execBodyY]; apply ih
   | deferDel t k ih => intros; simp only [execBodyY]; apply ih
+  | deferBinSpread s ns k ih => intros; simp only [execBodyY]; apply ih
   | deferPanic v k ih =>
     intro a anc self w
     simp only [execBodyY]
